@@ -96,6 +96,16 @@ CHECKS = {
          "Every entry point (PPPoE parsers and server receive loop with sessions in every phase, LCP/IPCP/IPv6CP in all 10 states, PAP/CHAP, keep-alive, DHCPv4 handler and option 82, DHCPv6 message and nested option parsers and handler, CoA listener, RADIUS attributes and client response path, HA sync decoder and handler, FTP/SIP ALG, ZTP vendor options) gets truncation at every byte, interesting length values and 20k (quick) / 100k (thorough) seeded mutants of 0-2048 bytes; inputs are passed with cap == len so any over-read panics; a child death is attributed to the journalled input and reproduced in a fresh process.",
          "Trusted: panic attribution by innermost bng frame; the scaling probe only refutes gross super-quadratic behaviour (>= 6x per doubling twice), it cannot establish linearity.",
          "DESIGN.md §5 C09"),
+ "C02": ("c02_dhcp", "exploration",
+         "reference binding-table monitor fed only by observed replies (decoded with an independent DHCP library) over the real DHCPv4 and DHCPv6 servers under testing/synctest virtual time: BFS with fingerprint pruning, seeded random walks, end-of-history drains, and concurrent handler runs in a child process under the Go race detector",
+         "On every OFFER/ACK/Advertise/Reply: no other client holds an unexpired binding on or an outstanding offer of the value, the value lies in the pool and is not the gateway, network or broadcast address, a renewal of an own unexpired binding is answered with the same value, a declined value is never offered or acked again, and after RELEASE or expiry+tick fresh clients draining the pool obtain the value; the lease table and pool snapshot are compared after every message and time step. v4: DISCOVER/REQUEST (selecting, init-reboot with own/foreign/gateway/broadcast/out-of-pool address, renew)/RELEASE/DECLINE/INFORM x direct/relayed/relayed+option 82; v6: SOLICIT(+rapid commit)/REQUEST/RENEW/REBIND/CONFIRM/RELEASE/DECLINE x IA_NA/IA_PD; time steps across lease expiry and the real cleanup loop.",
+         "Trusted: the reference table and net/netip usable-set computation; client identity is the MAC / DUID and a circuit-id identifies one client. Nexus/HTTP-allocator/RADIUS paths of v4 are not driven.",
+         "DESIGN.md §5 C02"),
+ "C16": ("c16_teardown", "exploration",
+         "resource-census monitor over systems composed from bng's own code exactly as cmd/bng does (dhcp.Server + PoolManager + qos/nat managers + loader over real kernel maps + radius.Client against a harness RADIUS server; pppoe.Server on an in-memory socket; SessionTeardown/KeepAliveManager; subscriber.Manager/CoAProcessor), census before establishment, after establishment, after termination and after a second termination; concurrent termination pairs under the Go race detector",
+         "Every session type x termination path x establishment prefix cell is enumerated: afterwards the address is back in the pool, lease/session tables and indexes are clean, no fast-path entry (MAC, VLAN pair, circuit-id hash and fixed key) answers, QoS and NAT entries are gone, exactly one Accounting-Stop per Start was issued, bystanders are untouched, and a second or concurrent termination has no further effect (no double release, no second Stop, no two sessions sharing an address).",
+         "Trusted: the census readers (kernel map dumps, pool snapshots through read-only hooks) and the scripted RADIUS server. QinQ contexts are injected through a hook because the slow path never sets them; CHAP is not dispatched by the PPPoE server.",
+         "DESIGN.md §5 C16"),
 }
 
 REASON_TODO = "check not yet built in this revision of /verif (planned in DESIGN.md §5); nothing is claimed for it"
